@@ -99,6 +99,15 @@ def family(ctx):
                 add(B.vmdk(capacity_sectors=sz, desc_num=n, footer=foot,
                            ctype='streamOptimized' if foot else 'monolithicSparse'),
                     'desc_num=%d footer=%s sectors=%d' % (n, foot, sz))
+    # VMDK descriptors that fill their sectors exactly (no NUL padding), the type line last / not last
+    for n in (1, 2, 3):
+        for last in ('ctype', 'nl', 'comment'):
+            for foot in (None, 'good'):
+                sz = three[(n + len(last)) % 2]
+                ct = 'streamOptimized' if foot else 'monolithicSparse'
+                add(B.vmdk(capacity_sectors=sz, desc_num=n, footer=foot, ctype=ct,
+                           descriptor=B.vmdk_descriptor_exact(n * 512, ct, sz, last)),
+                    'exact-fill desc_num=%d last=%s footer=%s sectors=%d' % (n, last, foot, sz))
     # ISO
     for bs in (512, 1024, 2048, 4096, 65535):
         for blocks in (0, 1, 2, 0x7fffffff, 0x80000000, 0xffffffff,
